@@ -110,3 +110,272 @@ Proof.
   - eexists. split; [apply append_segment_list; exact Hp|].
     unfold addSegment. apply R_addSegment; assumption.
 Qed.
+
+(* ================================================================== *)
+(* the two path states, restated with the commit functions              *)
+(* ================================================================== *)
+(* the model's terminator branch after the (non-fatal) validation error, as a function of the record *)
+Definition model_body (c : cfg) (r : N) (p : Z) (eof : bool) (atF brF pwF : bool) (buf : str) (u : url) : outcome :=
+  let u2 := model_commit c u buf ((r =? 47) || isSpecialSchemeAndBackslash c u r) in
+  if r =? 63 then Cont (mk QuerySt p eof [] atF brF pwF (set_query u2 (Some [])))
+  else if r =? 35 then Cont (mk FragmentSt p eof [] atF brF pwF (set_fragment u2 (Some [])))
+  else Cont (mk PathSt p eof [] atF brF pwF u2).
+
+(* the model's branch for an ordinary code point, after its validation errors *)
+Definition model_other (c : cfg) (r : N) (p : Z) (eof : bool) (atF brF pwF : bool) (buf : str) (inv : bool) (u : url)
+  : outcome :=
+  Cont (mk PathSt p eof
+          (buf ++ (if inv then percentEncodeInvalidRune c r (c_pathSet c) else percentEncodeRune c r (Some (c_pathSet c))))
+          atF brF pwF u).
+
+Lemma model_path_unfold idna_raw c inp base override mm : m_state mm = PathSt ->
+  step idna_raw c inp base override mm =
+  let u := m_url mm in
+  let p := (m_ptr mm + 1)%Z in
+  let eof := if (n_inp inp <=? p)%Z then true else m_eof mm in
+  let r := if (n_inp inp <=? p)%Z then rune_error else cp_at inp p in
+  if (eof || (r =? 47)) || isSpecialSchemeAndBackslash c u r || (negb (is_some override) && ((r =? 63) || (r =? 35))) then
+    (if isSpecialSchemeAndBackslash c u r
+     then (fun k => mherr c u InvalidReverseSolidus false k) else (fun k => k u))
+    (model_body c r p eof (m_at mm) (m_br mm) (m_pw mm) (m_buf mm))
+  else
+    (if negb (isURLCodePoint r) && negb (r =? 37)
+     then (fun k' => mherr c u InvalidURLUnit false k') else (fun k' => k' u))
+    (fun u => if invalid_pct (rest_from inp p)
+              then mherr c u InvalidURLUnit false (model_other c r p eof (m_at mm) (m_br mm) (m_pw mm) (m_buf mm) true)
+              else model_other c r p eof (m_at mm) (m_br mm) (m_pw mm) (m_buf mm) false u).
+Proof. intros H. unfold step. rewrite H. reflexivity. Qed.
+
+(* the standard's steps 1.5 - 1.7 *)
+Definition spec_body (sm : SB.machine) (sl : bool) (cr : option N) : SB.step_result :=
+  match spec_commit (SB.m_url sm) (SB.m_buffer sm) sl with
+  | None => SB.SBug
+  | Some u =>
+      let m := SB.set_buffer (SB.set_url sm u) [] in
+      if SB.c_is cr 63 then SB.SCont (SB.set_state (SB.set_url m (SU.with_query u (Some []))) SB.QueryState)
+      else if SB.c_is cr 35 then SB.SCont (SB.set_state (SB.set_url m (SU.with_fragment u (Some []))) SB.FragmentState)
+      else SB.SCont m
+  end.
+
+Lemma spec_path_unfold sover sm cr : SB.path_state sover sm cr =
+  let su := SB.m_url sm in
+  let sl := SB.c_is cr 47 || (SU.url_is_special su && SB.c_is cr 92) in
+  if SB.c_is_eof cr || sl || (negb (is_some sover) && (SB.c_is cr 63 || SB.c_is cr 35)) then spec_body sm sl cr
+  else match cr with
+       | Some x => SB.SCont (SB.set_buffer sm (SB.m_buffer sm ++ utf8_percent_encode_cp in_path_set x))
+       | None => SB.SBug
+       end.
+Proof. reflexivity. Qed.
+
+Section States.
+  Variable idna_raw : str -> str * bool.
+  Variable c : cfg.
+  Hypothesis Hstd : std_cfg c.
+  Variable inp : list rune.
+  Let input : list N := map rv inp.
+  Variable base : option url.
+  Variable sbase : option SU.surl.
+  Variable override : option state.
+
+  Let Hfail := std_fail c Hstd.
+  Let Hl1 := std_latin1 c Hstd.
+  Let Hsp := std_singlePct c Hstd.
+  Let Hspecial := std_special_tab c Hstd.
+
+  Notation sim_for := (step_sim_for idna_raw c inp base sbase override).
+
+  Lemma is_some_map {A B} (f : A -> B) o : is_some (option_map f o) = is_some o.
+  Proof. destruct o; reflexivity. Qed.
+
+  (* ---------------------------------------------------------------- *)
+  (* the terminator branch                                             *)
+  (* ---------------------------------------------------------------- *)
+  Lemma term_sim mm sm u r cr p sl :
+    SB.PathState = SB.m_state sm ->
+    SB.m_pointer sm = p -> (-1 <= p)%Z ->
+    flags_rel mm sm ->
+    m_buf mm = encode_runes (SB.m_buffer sm) ->
+    R u (SB.m_url sm) -> list_path (SB.m_url sm) ->
+    SB.c_is cr 63 = (r =? 63) -> SB.c_is cr 35 = (r =? 35) ->
+    sl = (r =? 47) || (SU.url_is_special (SB.m_url sm) && (r =? 92)) ->
+    out_rel inp (is_some override) sbase
+      (model_body c r p (SB.points_to_eof input p) (m_at mm) (m_br mm) (m_pw mm) (m_buf mm) u)
+      (spec_body sm sl cr).
+  Proof.
+    intros Hs Hp Hlo Hfl Hbuf HR Hlp E63 E35 Esl.
+    destruct (list_path_inv _ Hlp) as [segs Hsegs].
+    unfold model_body, spec_body. cbv zeta.
+    unfold isSpecialSchemeAndBackslash. rewrite (R_special c u _ Hspecial HR), <- Esl, Hbuf.
+    destruct (commit_sim c u (SB.m_url sm) (SB.m_buffer sm) segs sl Hstd HR Hsegs) as [segs' [Ec HR']].
+    rewrite Ec, E63, E35.
+    set (u2 := model_commit c u (encode_runes (SB.m_buffer sm)) sl) in *.
+    set (su2 := SU.with_path (SB.m_url sm) (SU.PList segs')) in *.
+    destruct sm as [su sst sbuf sa sbr spw sp].
+    cbn [SB.m_url SB.m_buffer SB.m_state SB.m_pointer SB.set_url SB.set_buffer SB.set_state] in *.
+    destruct (r =? 63) eqn:Eq.
+    - (* '?' *)
+      cbn [out_rel].
+      constructor; unfold mk; cbn [m_state m_ptr m_eof m_buf m_at m_br m_pw m_url st_map st_rel SB.m_state SB.m_pointer SB.m_url SB.m_buffer].
+      + reflexivity.
+      + exact Hp.
+      + exact Hlo.
+      + reflexivity.
+      + exact Hfl.
+      + exists []. split; [reflexivity|]. split; [reflexivity|]. split; [reflexivity|].
+        apply R_Rq. apply (R_set_query _ _ (Some [])). exact HR'.
+      + intros _. apply (R_set_query _ _ (Some [])). exact HR'.
+    - destruct (r =? 35) eqn:Ef.
+      + (* '#' *)
+        cbn [out_rel].
+        constructor; unfold mk; cbn [m_state m_ptr m_eof m_buf m_at m_br m_pw m_url st_map st_rel SB.m_state SB.m_pointer SB.m_url SB.m_buffer].
+        * reflexivity.
+        * exact Hp.
+        * exact Hlo.
+        * reflexivity.
+        * exact Hfl.
+        * exists []. split; [reflexivity|]. split; [reflexivity|].
+          apply R_Rf. apply (R_set_fragment _ _ (Some [])). exact HR'.
+        * intros _. apply (R_set_fragment _ _ (Some [])). exact HR'.
+      + (* stay *)
+        cbn [out_rel].
+        constructor; unfold mk; cbn [m_state m_ptr m_eof m_buf m_at m_br m_pw m_url st_map st_rel SB.m_state SB.m_pointer SB.m_url SB.m_buffer].
+        * exact Hs.
+        * exact Hp.
+        * exact Hlo.
+        * reflexivity.
+        * exact Hfl.
+        * split; [reflexivity|]. split; [constructor|]. split; [exact HR'|reflexivity].
+        * intros _. exact HR'.
+  Qed.
+
+  (* ---------------------------------------------------------------- *)
+  (* an ordinary code point                                            *)
+  (* ---------------------------------------------------------------- *)
+  Lemma if_same {A} (b : bool) (x : A) : (if b then x else x) = x.
+  Proof. destruct b; reflexivity. Qed.
+
+  Lemma other_sim mm sm u r p inv :
+    SB.PathState = SB.m_state sm ->
+    SB.m_pointer sm = p -> (-1 <= p)%Z -> (p < n_inp inp)%Z ->
+    flags_rel mm sm ->
+    m_buf mm = encode_runes (SB.m_buffer sm) -> Forall scalar (SB.m_buffer sm) ->
+    R u (SB.m_url sm) -> list_path (SB.m_url sm) ->
+    out_rel inp (is_some override) sbase
+      (model_other c r p false (m_at mm) (m_br mm) (m_pw mm) (m_buf mm) inv u)
+      (SB.SCont (SB.set_buffer sm (SB.m_buffer sm ++ utf8_percent_encode_cp in_path_set r))).
+  Proof.
+    intros Hs Hp Hlo Hhi Hfl Hbuf Hsc HR Hlp.
+    unfold model_other. rewrite (percentEncodeInvalidRune_plain c (c_pathSet c) Hsp).
+    rewrite (R1_path c Hstd), Hbuf.
+    rewrite if_same.
+    rewrite <- enc_runes_app.
+    destruct sm as [su sst sbuf sa sbr spw sp].
+    cbn [SB.m_url SB.m_buffer SB.m_state SB.m_pointer SB.set_buffer] in *.
+    cbn [out_rel].
+    constructor; unfold mk; cbn [m_state m_ptr m_eof m_buf m_at m_br m_pw m_url st_map st_rel SB.m_state SB.m_pointer SB.m_url SB.m_buffer].
+    - exact Hs.
+    - exact Hp.
+    - exact Hlo.
+    - fold input. unfold input. rewrite points_to_eof_spec. lia.
+    - exact Hfl.
+    - split; [reflexivity|]. split; [|split; [exact HR|exact Hlp]].
+      apply Forall_app. split; [exact Hsc|]. apply ascii_scalar.
+      apply (utf8_percent_encode_cp_ascii c Hl1 pes_Path). exact sets_path.
+    - discriminate.
+  Qed.
+
+  (* ---------------------------------------------------------------- *)
+  (* path state                                                        *)
+  (* ---------------------------------------------------------------- *)
+  Theorem sim_path : sim_for (fun st => st = PathSt).
+  Proof.
+    intros mm sm Hst [Hs Hp He Hlo Hhi Hfl Hb].
+    rewrite Hst in Hs, Hb. cbn [st_map] in Hs. cbn [st_rel] in Hb.
+    destruct Hb as [Hbuf [Hsc [HR Hlp]]].
+    unfold mstep, sstep. rewrite (model_path_unfold _ _ _ _ _ _ Hst).
+    unfold SB.step. rewrite <- Hs. cbv zeta. rewrite spec_path_unfold. cbv zeta.
+    rewrite is_some_map, He, Hp.
+    set (p := (m_ptr mm + 1)%Z) in *.
+    destruct (n_inp inp <=? p)%Z eqn:En.
+    - (* the EOF code point *)
+      unfold input. rewrite here_eof by lia. cbn [SB.c_of hd_error SB.c_is SB.c_is_eof orb].
+      assert (Esab : isSpecialSchemeAndBackslash c (m_url mm) rune_error = false).
+      { unfold isSpecialSchemeAndBackslash. change (rune_error =? 92) with false. apply andb_false_r. }
+      rewrite Esab. cbv beta iota.
+      replace true with (SB.points_to_eof input p) at 1 by (unfold input; rewrite points_to_eof_spec; lia).
+      apply term_sim; try assumption; try reflexivity; try lia.
+    - (* a code point *)
+      unfold input. rewrite (here_cons inp p) by lia.
+      cbn [SB.c_of hd_error SB.c_is SB.c_is_eof orb].
+      set (r := cp_at inp p).
+      unfold isSpecialSchemeAndBackslash at 1. rewrite (R_special c _ _ Hspecial HR).
+      destruct ((r =? 47) || SU.url_is_special (SB.m_url sm) && (r =? 92)
+                || negb (is_some override) && ((r =? 63) || (r =? 35))) eqn:Et.
+      + (* a terminator *)
+        replace false with (SB.points_to_eof input p) at 1 by (unfold input; rewrite points_to_eof_spec; lia).
+        destruct (isSpecialSchemeAndBackslash c (m_url mm) r);
+          rewrite ?mherr_warn by exact Hfail;
+          (apply term_sim; try assumption; try reflexivity; try lia; repeat apply R_noted; exact HR).
+      + (* an ordinary code point *)
+        destruct (negb (isURLCodePoint r) && negb (r =? 37));
+          destruct (invalid_pct (rest_from inp p));
+          rewrite ?mherr_warn by exact Hfail;
+          (apply other_sim; try assumption; try lia; repeat apply R_noted; exact HR).
+  Qed.
+End States.
+
+Print Assumptions commit_sim.
+Print Assumptions sim_path.
+
+(* ================================================================== *)
+(* the premises are satisfiable: "http://h/a/../b" with the pointer on the second '.' *)
+(* ================================================================== *)
+Definition ex_inp : list rune := map Good [97;47;46;46;47;98].
+Definition ex_su : SU.surl := SU.mkSUrl SU.sc_http [] [] (Some (SU.HDomain [104])) None (SU.PList [[97]]) None None.
+Definition ex_u : url := set_path (set_host (set_scheme (empty_url []) [104;116;116;112]) (Some [104])) [[97]] false.
+Definition ex_mm : mstate := mk PathSt 3 false [46;46] false false false ex_u.
+Definition ex_sm : SB.machine := SB.mkM ex_su SB.PathState [46;46] false false false 4.
+
+Example sim_path_premises :
+  std_cfg default_cfg /\ m_state ex_mm = PathSt /\ Rel_before ex_inp false None ex_mm ex_sm.
+Proof.
+  split; [exact std_cfg_default|]. split; [reflexivity|].
+  constructor.
+  - reflexivity.
+  - reflexivity.
+  - reflexivity.
+  - vm_compute. discriminate.
+  - vm_compute. reflexivity.
+  - repeat split; reflexivity.
+  - change (st_rel false None PathSt 3 [46;46] ex_u ex_sm). cbn [st_rel].
+    split; [vm_compute; reflexivity|]. split.
+    + repeat constructor; try (vm_compute; discriminate); reflexivity.
+    + split; [constructor; vm_compute; try split; reflexivity|reflexivity].
+Qed.
+
+(* what the theorem gives on it: both sides pop the segment "a" and stay in the path state *)
+Example sim_path_instance :
+  out_rel ex_inp false None
+    (mstep (fun s => (s, true)) default_cfg ex_inp None None ex_mm)
+    (sstep (fun s => (s, true)) default_cfg ex_inp None None ex_sm) /\
+  (exists mm', mstep (fun s => (s, true)) default_cfg ex_inp None None ex_mm = Cont mm' /\
+               u_path (m_url mm') = [] /\ m_state mm' = PathSt) /\
+  (exists sm', sstep (fun s => (s, true)) default_cfg ex_inp None None ex_sm = SB.SCont sm' /\
+               SU.u_path (SB.m_url sm') = SU.PList [] /\ SB.m_state sm' = SB.PathState).
+Proof.
+  split; [|split].
+  - apply (sim_path (fun s => (s, true)) default_cfg std_cfg_default ex_inp None None None ex_mm ex_sm).
+    + reflexivity.
+    + apply sim_path_premises.
+  - eexists. split; [vm_compute; reflexivity|]. split; reflexivity.
+  - eexists. split; [vm_compute; reflexivity|]. split; reflexivity.
+Qed.
+
+(* the Windows drive letter quirk on both sides: "file:" + "C|" *)
+Example commit_drive_letter :
+  let su := SU.mkSUrl SU.sc_file [] [] (Some SU.HEmpty) None (SU.PList []) None None in
+  let u := set_host (set_scheme (empty_url []) s_file) (Some []) in
+  R u su /\
+  spec_commit su [67;124] false = Some (SU.with_path su (SU.PList [[67;58]])) /\
+  u_path (model_commit default_cfg u (encode_runes [67;124]) false) = [[67;58]].
+Proof. cbv zeta. split; [constructor; vm_compute; try split; reflexivity|]. split; vm_compute; reflexivity. Qed.
